@@ -902,7 +902,27 @@ func (vc *VC) globalLoc(o types.Object) *Loc {
 		vc.sc.assert(eq(n, fmt.Sprintf("(- %d)", id)))
 	}
 	t := o.Type()
-	if _, isArr := t.Underlying().(*types.Array); isArr {
+	if at, isArr := t.Underlying().(*types.Array); isArr {
+		if vals, ok := vc.eng.globalTables[o]; ok && !vc.tablesDone[n] {
+			// immutable lookup table: contents from the source initialiser
+			if vc.tablesDone == nil {
+				vc.tablesDone = map[string]bool{}
+			}
+			vc.tablesDone[n] = true
+			els := leavesOf(at.Elem())
+			if len(els) == 1 && !els[0].bad {
+				hn := elemHeap(at.Elem(), "")
+				hs := arraySort(sortRef, arraySort(sortIdx, els[0].sort))
+				h0 := quote(hn + "@0")
+				vc.heapSorts[hn] = hs
+				vc.sc.declare(h0, hs)
+				for i, cv := range vals {
+					ev := vc.constVal(at.Elem(), cv)
+					vc.sc.assert(eq(sx("select", sx("select", h0, n), i64(int64(i))), ev.S))
+				}
+				vc.eng.usedTrusted["package-level table "+o.Pkg().Name()+"."+o.Name()+" is never modified after initialisation (checked: no store in any function); contents taken from its initialiser"] = true
+			}
+		}
 		return &Loc{Kind: locArr, Ref: n, Base: t}
 	}
 	return &Loc{Kind: locObj, Ref: n, Base: t}
